@@ -48,6 +48,8 @@ pub enum Kind {
     /// count-based window of `size`, threshold 1/2, `permitted` trials, wait 30ms; the prologue
     /// (run by one thread before the others start) fails `size` calls and lets the wait elapse
     Breaker { size: u32, permitted: u32, time_based: bool },
+    /// coalesce over `keys` keys (nobody is cancelled, nothing panics)
+    Coalesce { keys: u32 },
     /// adaptive limiter with a fixed limit (min = initial = max) that no thread count reaches
     Adaptive { limit: u32 },
 }
@@ -111,6 +113,13 @@ pub fn run_json(v: &serde_json::Value, ctx: &mut RunCtx, prefix: &'static str) -
     run(&parse::<ScnT>(v).unwrap(), ctx, prefix)
 }
 
+pub fn gen_coalesce(rng: &mut Rng) -> ScnT {
+    let keys = rng.range(1, 2) as u32;
+    let nt = rng.range(2, 4) as usize;
+    let threads = (0..nt).map(|_| (0..rng.range(1, 4)).map(|_| TOp::Call { key: rng.range(1, keys as u64) as u32, err: rng.chance(1, 5) }).collect()).collect();
+    ScnT { kind: Kind::Coalesce { keys }, threads, pct_depth: *rng.pick(&[0u32, 0, 2, 3]) }
+}
+
 pub fn gen_adaptive(rng: &mut Rng) -> ScnT {
     let nt = rng.range(2, 3) as usize;
     let threads = (0..nt).map(|_| (0..rng.range(1, 5)).map(|_| TOp::Call { key: 0, err: rng.chance(1, 4) }).collect()).collect();
@@ -129,6 +138,7 @@ pub fn valid(s: &ScnT) -> bool {
             Kind::RateLimiter { window, limit, period_ms } => *window <= 2 && *limit >= 1 && *limit <= 4 && *period_ms >= 10 && *period_ms <= 100,
             Kind::Cache { policy, ttl_ms } => *policy <= 2 && *ttl_ms >= 5 && *ttl_ms <= 100,
             Kind::Breaker { size, permitted, .. } => *size >= 1 && *size <= 4 && *permitted >= 1 && *permitted <= 3,
+            Kind::Coalesce { keys } => *keys >= 1 && *keys <= 3 && s.threads.iter().flatten().all(|o| matches!(o, TOp::Call { key, .. } if *key >= 1 && key <= keys)),
             Kind::Adaptive { limit } => *limit as usize >= s.threads.len() && *limit <= 8 && s.threads.iter().flatten().all(|o| matches!(o, TOp::Call { .. })),
         }
 }
@@ -306,6 +316,27 @@ pub fn run(s: &ScnT, ctx: &mut RunCtx, prefix: &'static str) -> RunOutput {
                     })
                 });
             }
+            Kind::Coalesce { .. } => {
+                use tower_resilience_coalesce::{CoalesceError, CoalesceLayer};
+                let base = CoalesceLayer::new(|r: &Req| CKey(r.key)).layer(SimInner::new(0));
+                spawn_all(&scn, move || {
+                    let mut svc = base.clone();
+                    Box::new(move |id: u32, key: u32| {
+                        if let Some(Ok(())) = drive(std::future::poll_fn(|cx| svc.poll_ready(cx)), 50) {
+                            let r = drive(svc.call(Req { id, key }), 2000);
+                            // 0 ok, 1 inner error, 2 leader cancelled, 3 receive error, 4 never resolved
+                            let (code, serial) = match &r {
+                                Some(Ok(resp)) => (0, resp.serial as i64),
+                                Some(Err(CoalesceError::Service(e))) => (1, e.serial as i64),
+                                Some(Err(CoalesceError::LeaderCancelled)) => (2, -1),
+                                Some(Err(CoalesceError::RecvError)) => (3, -1),
+                                None => (4, -1),
+                            };
+                            world::note("t_result", (id as i64) * 10 + code, serial);
+                        }
+                    })
+                });
+            }
             Kind::Adaptive { limit } => {
                 use tower_resilience_adaptive::{AdaptiveLimiterLayer, Aimd, Algorithm};
                 let alg = Algorithm::Aimd(Aimd::builder().initial_limit(limit as usize).min_limit(limit as usize).max_limit(limit as usize).build());
@@ -389,6 +420,29 @@ pub fn run(s: &ScnT, ctx: &mut RunCtx, prefix: &'static str) -> RunOutput {
                 if !calls.iter().any(|c| c.key == key as u32 && c.serial as i64 == ser) {
                     push("C10.hit_value", "threads", format!("a hit for key {} returned serial {} which no call for that key produced", key, ser));
                 }
+            }
+        }
+        Kind::Coalesce { .. } => {
+            for (_, a, serial) in notes(&log, "t_result") {
+                let (id, code) = (a / 10, a % 10);
+                match code {
+                    2 | 3 => push("C11.shared_result", "threads", format!("request {} got {} although no leader was dropped or panicked (inner calls: {:?})", id, if code == 2 { "LeaderCancelled" } else { "RecvError" }, calls.iter().map(|c| (c.req, c.key, c.how)).collect::<Vec<_>>())),
+                    4 => push("C11.no_hang", "threads", format!("request {} never resolved", id)),
+                    _ => {
+                        // the result is that of a call made for the same key
+                        let key = s.threads.iter().enumerate().flat_map(|(ti, ops)| ops.iter().enumerate().map(move |(k, o)| (ti * 100 + k, o))).find(|(rid, _)| *rid as i64 == id).map(|(_, o)| match o {
+                            TOp::Call { key, .. } => *key,
+                            _ => 0,
+                        });
+                        if !calls.iter().any(|c| c.serial as i64 == serial && Some(c.key) == key) {
+                            push("C11.shared_result", "threads", format!("request {} (key {:?}) got the result of call serial {} which was not made for its key", id, key, serial));
+                        }
+                    }
+                }
+            }
+            let peak = world::with(|w| w.max_in_flight_key);
+            if peak > 1 {
+                push("C11.one_in_flight_per_key", "threads", format!("{} inner calls in flight for one key", peak));
             }
         }
         Kind::Adaptive { limit } => {
